@@ -2,7 +2,7 @@
 //! ops:  cltv <h> <out> <in> <delta>       (hook: check_incoming_htlc_cltv)
 //!       peelfwd <h> <out> <in>            (public peel_payment_onion on a real 2-hop onion)
 //!       peelfinal <h> <onion_cltv> <htlc_cltv>   (public peel_payment_onion, final hop)
-use crate::common::*;
+use ldk_verif_harness::common::*;
 use bitcoin::secp256k1::{PublicKey, Secp256k1, SecretKey};
 use lightning::ln::channelmanager::MIN_CLTV_EXPIRY_DELTA;
 use lightning::ln::msgs::UpdateAddHTLC;
@@ -40,7 +40,8 @@ fn peel(ctx: &Ctx, two_hop: bool, base_height: u32, delta_last: u32, htlc_cltv: 
 	}
 }
 
-pub fn run(args: &Args) {
+fn main() {
+	let args = &parse_args("c08");
 	let mut rec = Rec::new(&args.out, "c08");
 	let mut rng = Rng::new(args.seed);
 	let secp = Secp256k1::new();
